@@ -156,6 +156,10 @@ def gen_shape(rng, sid, fn, force=None):
         rk = rng.choice(['STR', 'STR', 'LRSTR', 'THROW_STD'])
     rk = force.get('rk', rk)
     d['rk'] = rk
+    d['vform'] = force.get('vform', rng.random() < 0.2)
+    if d['vform']:
+        # the _V macros stringify the call after macro expansion, so ANY(type) would not appear as written: keep to '_'
+        d['matchers'] = [('ANY' if k == 'TYPEDANY' else k, vi) for k, vi in d['matchers']]
     # clause order: list of tokens
     clauses = []
     for k, (wk, lr, vi) in enumerate(withs):
@@ -197,7 +201,8 @@ def render(d):
     args = ', '.join(matcher_text(k, f['argk'][i], vi) for i, (k, vi) in enumerate(d['matchers']))
     func_txt = '%s(%s)' % (f['name'], args)
     macro = {'ALLOW': 'NAMED_ALLOW_CALL', 'FORBID': 'NAMED_FORBID_CALL'}.get(d['bf'], 'NAMED_REQUIRE_CALL')
-    s = '%s(m, %s)' % (macro, func_txt)
+    vform = d.get('vform', False)   # the C++11-style macros that take the modifiers as macro arguments
+    s = '' if vform else '%s(m, %s)' % (macro, func_txt)
     with_inners = []
     addr = 'sim::ad(_1)' + (', sim::ad(_2)' if f['arity'] == 2 else '')
     for c, k in d['order']:
@@ -230,6 +235,8 @@ def render(d):
             s += '.IN_SEQUENCE(%s)' % ', '.join('s%d' % i for i in range(d['nseq']))
     d['with_inners'] = with_inners
     d['text'] = 'm.' + func_txt
+    if vform:
+        s = '%s_V(m, %s%s)' % (macro, func_txt, (', ' + s) if s else '')
     return s
 
 
@@ -257,6 +264,8 @@ def main():
             dict(bf='FORBID', mk=any_m, nwith=0),
             dict(bf='FORBID', mk=val_m, nwith=0),
             dict(bf='T0', mk=val_m, nwith=1),
+            dict(bf='FORBID', mk=any_m, nwith=1, vform=True),
+            dict(bf='ALLOW', mk=val_m, nwith=1, nseq=0, nse=1, rk=base_rk, vform=True),
             dict(bf='DEFAULT', mk=any_m, nwith=0, nseq=1, nse=0, rk=base_rk),
             dict(bf='DEFAULT', mk=val_m, nwith=0, nseq=1, nse=0, rk=base_rk),
             dict(bf='T2', mk=any_m, nwith=0, nseq=1, nse=0, rk=base_rk),
